@@ -32,11 +32,12 @@ theorem famIds_append (f g : Fam) : famIds (f ++ g) = famIds f ++ famIds g := by
 
 /-- ids of one dictionary entry created by `mkFam` -/
 theorem inner_ids (keys : List Int) (n : Int) (q : Int) :
-    ((keys.zipIdx.map fun (k, idx) => (k, (⟨n + (idx : Int), [], [], q⟩ : Node))).map fun e => e.2.nid)
+    (((keys.zipIdx.map fun (k, idx) => (k, (⟨n + (idx : Int), [], [], q⟩ : Node))).map (·.2)).map (·.nid))
       = pyRange n (n + keys.length) := by
-  have h : (keys.zipIdx.map fun (k, idx) => (k, (⟨n + (idx : Int), [], [], q⟩ : Node))).map (fun e => e.2.nid)
+  have h : (((keys.zipIdx.map fun (k, idx) => (k, (⟨n + (idx : Int), [], [], q⟩ : Node))).map (·.2)).map (·.nid))
       = (keys.zipIdx.map Prod.snd).map fun (idx : Nat) => n + (idx : Int) := by
-    simp [List.map_map, Function.comp_def]
+    rw [List.map_map, List.map_map, List.map_map]
+    rfl
   rw [h, List.zipIdx_map_snd]
   unfold pyRange
   have e : (n + (keys.length : Int) - n).toNat = keys.length := by omega
@@ -62,7 +63,7 @@ theorem mkFam_fold_ids (spec : List (List Int × List Int × Int)) :
     rw [h1, famIds_append]
     have : famIds [(s.1, s.2.1.zipIdx.map fun (k, idx) => (k, (⟨acc.2 + (idx : Int), [], [], s.2.2⟩ : Node)))]
         = pyRange acc.2 (acc.2 + s.2.1.length) := by
-      simp only [famIds, Fam.nodes, List.flatMap_cons, List.flatMap_nil, List.append_nil, List.map_map]
+      simp only [famIds, Fam.nodes, List.flatMap_cons, List.flatMap_nil, List.append_nil]
       exact inner_ids s.2.1 acc.2 s.2.2
     rw [this, List.append_assoc, pyRange_append _ _ _ (by omega) h2]
 
@@ -100,11 +101,17 @@ theorem ten_getD (fs : List Fam) (h : fs.length = 10) :
   match fs, h with
   | [a0, a1, a2, a3, a4, a5, a6, a7, a8, a9], _ => rfl
 
+theorem pyRange_empty (a b : Int) (h : b ≤ a) : pyRange a b = [] := by
+  unfold pyRange
+  have : (b - a).toNat = 0 := by omega
+  rw [this]; rfl
+
 theorem identity_ids (L : Int) :
-    (((pyRange 0 L).map fun i => (i, (⟨i, [], [], 0⟩ : Node))).map fun e => e.2.nid) ++
-    (((pyRange 1 (L + 1)).map fun i => (i, (⟨L + i - 1, [], [], 0⟩ : Node))).map fun e => e.2.nid)
-      = pyRange 0 ((((pyRange 0 L).length + (pyRange 1 (L + 1)).length : Nat) : Int)) := by
-  simp only [List.map_map, Function.comp_def, List.map_id']
+    ((((pyRange 0 L).map fun i => (i, (⟨i, [], [], 0⟩ : Node))).map (·.2)).map (·.nid)) ++
+    ((((pyRange 1 (L + 1)).map fun i => (i, (⟨L + i - 1, [], [], 0⟩ : Node))).map (·.2)).map (·.nid))
+      = pyRange 0 (((((pyRange 0 L).map fun i => (i, (⟨i, [], [], 0⟩ : Node))).length +
+          ((pyRange 1 (L + 1)).map fun i => (i, (⟨L + i - 1, [], [], 0⟩ : Node))).length : Nat) : Int)) := by
+  simp only [List.map_map, Function.comp_def, List.map_id', List.length_map]
   by_cases hL : 0 ≤ L
   · have e1 : ((pyRange 1 (L + 1)).map fun i => L + i - 1) = pyRange L (2 * L) := by
       unfold pyRange
@@ -117,15 +124,12 @@ theorem identity_ids (L : Int) :
     have e2 : (((pyRange 0 L).length + (pyRange 1 (L + 1)).length : Nat) : Int) = 2 * L := by
       simp only [pyRange_length]; omega
     rw [e1, e2, pyRange_append _ _ _ hL (by omega)]
-  · have z1 : pyRange 0 L = [] := by unfold pyRange; have : (L - 0).toNat = 0 := by omega
-                                      rw [this]; rfl
-    have z2 : pyRange 1 (L + 1) = [] := by unfold pyRange; have : (L + 1 - 1).toNat = 0 := by omega
-                                           rw [this]; rfl
-    simp [z1, z2, pyRange]
+  · rw [pyRange_empty 0 L (by omega), pyRange_empty 1 (L + 1) (by omega)]
+    rfl
 
 /-- ids of the node list of `generate_graph` -/
 def nodeListIds (idL idR : List (Int × Node)) (f0 f1 f2 f3 f4 f5 f6 f7 f8 f9 : Fam) : List Int :=
-  (idL.map fun e => e.2.nid) ++ (idR.map fun e => e.2.nid) ++ famIds f0 ++ famIds f1 ++ famIds f5 ++ famIds f6 ++
+  ((idL.map (·.2)).map (·.nid)) ++ ((idR.map (·.2)).map (·.nid)) ++ famIds f0 ++ famIds f1 ++ famIds f5 ++ famIds f6 ++
     famIds f2 ++ famIds f3 ++ famIds f4 ++ famIds f7 ++ famIds f8 ++ famIds f9
 
 /-- the graph's node order is a rearrangement of the creation order -/
@@ -137,35 +141,38 @@ theorem nodeList_perm (a b : List Int) (F0 F1 F2 F3 F4 F5 F6 F7 F8 F9 : List Int
   simp only [List.count_append, List.count_nil]
   omega
 
+/-- identity chains with ids `0 .. n0-1`, then ten chained families: the graph's node order is a rearrangement of `0 .. N-1` -/
+theorem ids_perm_general (a b : List Int) (specs : List (List (List Int × List Int × Int))) (n0 : Int)
+    (hid : a ++ b = pyRange 0 n0) (h0 : 0 ≤ n0) (h10 : specs.length = 10) :
+    (a ++ b ++ famIds ((mkFams specs n0).1.getD 0 []) ++ famIds ((mkFams specs n0).1.getD 1 []) ++
+      famIds ((mkFams specs n0).1.getD 5 []) ++ famIds ((mkFams specs n0).1.getD 6 []) ++
+      famIds ((mkFams specs n0).1.getD 2 []) ++ famIds ((mkFams specs n0).1.getD 3 []) ++
+      famIds ((mkFams specs n0).1.getD 4 []) ++ famIds ((mkFams specs n0).1.getD 7 []) ++
+      famIds ((mkFams specs n0).1.getD 8 []) ++ famIds ((mkFams specs n0).1.getD 9 [])).Perm
+      (pyRange 0 (mkFams specs n0).2) := by
+  have hlen := mkFams_length specs n0
+  obtain ⟨hids, hle⟩ := mkFams_ids specs n0
+  have hfs := ten_getD (mkFams specs n0).1 (by rw [hlen, h10])
+  have hcr : pyRange 0 (mkFams specs n0).2 = a ++ b ++ (mkFams specs n0).1.flatMap famIds := by
+    rw [hid, hids, pyRange_append _ _ _ h0 hle]
+  rw [hcr]
+  conv_rhs => rw [hfs]
+  simp only [List.flatMap_cons, List.flatMap_nil]
+  exact nodeList_perm _ _ _ _ _ _ _ _ _ _ _ _
+
+/-- number of identity-chain nodes, as `__init__` counts them -/
+def idCount (L : Int) : Int :=
+  ((((pyRange 0 L).map fun i => (i, (⟨i, [], [], 0⟩ : Node))).length +
+    ((pyRange 1 (L + 1)).map fun i => (i, (⟨L + i - 1, [], [], 0⟩ : Node))).length : Nat) : Int)
+
 /-- **`MolecularOpGraphNodes`: for every `L` the node ids of the graph's node list are a rearrangement of `0, 1, ..., N-1`**;
 in particular they are pairwise distinct. -/
 theorem molNodes_ids (L : Int) :
     ∃ N : Int, ((MolNodes.init L).nodeList.map (·.nid)).Perm (pyRange 0 N) := by
-  set n0 : Int := (((pyRange 0 L).length + (pyRange 1 (L + 1)).length : Nat) : Int) with hn0
-  have hlen := mkFams_length (molSpecs L) n0
-  have h10 : (molSpecs L).length = 10 := rfl
-  obtain ⟨hids, hle⟩ := mkFams_ids (molSpecs L) n0
-  have hfs := ten_getD (mkFams (molSpecs L) n0).1 (by rw [hlen, h10])
-  refine ⟨(mkFams (molSpecs L) n0).2, ?_⟩
-  have hcr : pyRange 0 (mkFams (molSpecs L) n0).2 =
-      (((pyRange 0 L).map fun i => (i, (⟨i, [], [], 0⟩ : Node))).map fun e => e.2.nid) ++
-      (((pyRange 1 (L + 1)).map fun i => (i, (⟨L + i - 1, [], [], 0⟩ : Node))).map fun e => e.2.nid) ++
-      (mkFams (molSpecs L) n0).1.flatMap famIds := by
-    rw [identity_ids, hids, pyRange_append _ _ _ (by omega) hle]
-  rw [hcr]
-  conv_rhs => rw [hfs]
-  simp only [List.flatMap_cons, List.flatMap_nil]
-  have hnl : (MolNodes.init L).nodeList.map (·.nid) =
-      (((pyRange 0 L).map fun i => (i, (⟨i, [], [], 0⟩ : Node))).map fun e => e.2.nid) ++
-      (((pyRange 1 (L + 1)).map fun i => (i, (⟨L + i - 1, [], [], 0⟩ : Node))).map fun e => e.2.nid) ++
-      famIds ((mkFams (molSpecs L) n0).1.getD 0 []) ++ famIds ((mkFams (molSpecs L) n0).1.getD 1 []) ++
-      famIds ((mkFams (molSpecs L) n0).1.getD 5 []) ++ famIds ((mkFams (molSpecs L) n0).1.getD 6 []) ++
-      famIds ((mkFams (molSpecs L) n0).1.getD 2 []) ++ famIds ((mkFams (molSpecs L) n0).1.getD 3 []) ++
-      famIds ((mkFams (molSpecs L) n0).1.getD 4 []) ++ famIds ((mkFams (molSpecs L) n0).1.getD 7 []) ++
-      famIds ((mkFams (molSpecs L) n0).1.getD 8 []) ++ famIds ((mkFams (molSpecs L) n0).1.getD 9 []) := by
-    simp [MolNodes.nodeList, MolNodes.init, famIds, hn0]
-  rw [hnl]
-  exact nodeList_perm _ _ _ _ _ _ _ _ _ _ _ _
+  have h := ids_perm_general _ _ (molSpecs L) _ (identity_ids L) (by omega) rfl
+  refine ⟨(mkFams (molSpecs L) (idCount L)).2, ?_⟩
+  simp only [MolNodes.nodeList, MolNodes.init, List.map_append]
+  exact h
 
 theorem molNodes_ids_nodup (L : Int) : ((MolNodes.init L).nodeList.map (·.nid)).Nodup := by
   obtain ⟨N, hp⟩ := molNodes_ids L
@@ -174,34 +181,146 @@ theorem molNodes_ids_nodup (L : Int) : ((MolNodes.init L).nodeList.map (·.nid))
 /-- **`SpinMolecularOpGraphNodes`**: the same for the spin-orbital node tables. -/
 theorem spinNodes_ids (L : Int) :
     ∃ N : Int, ((SpinNodes.init L).nodeList.map (·.nid)).Perm (pyRange 0 N) := by
-  set n0 : Int := (((pyRange 0 L).length + (pyRange 1 (L + 1)).length : Nat) : Int) with hn0
-  have hlen := mkFams_length (spinSpecs L) n0
-  have h10 : (spinSpecs L).length = 10 := rfl
-  obtain ⟨hids, hle⟩ := mkFams_ids (spinSpecs L) n0
-  have hfs := ten_getD (mkFams (spinSpecs L) n0).1 (by rw [hlen, h10])
-  refine ⟨(mkFams (spinSpecs L) n0).2, ?_⟩
-  have hcr : pyRange 0 (mkFams (spinSpecs L) n0).2 =
-      (((pyRange 0 L).map fun i => (i, (⟨i, [], [], 0⟩ : Node))).map fun e => e.2.nid) ++
-      (((pyRange 1 (L + 1)).map fun i => (i, (⟨L + i - 1, [], [], 0⟩ : Node))).map fun e => e.2.nid) ++
-      (mkFams (spinSpecs L) n0).1.flatMap famIds := by
-    rw [identity_ids, hids, pyRange_append _ _ _ (by omega) hle]
-  rw [hcr]
-  conv_rhs => rw [hfs]
-  simp only [List.flatMap_cons, List.flatMap_nil]
-  have hnl : (SpinNodes.init L).nodeList.map (·.nid) =
-      (((pyRange 0 L).map fun i => (i, (⟨i, [], [], 0⟩ : Node))).map fun e => e.2.nid) ++
-      (((pyRange 1 (L + 1)).map fun i => (i, (⟨L + i - 1, [], [], 0⟩ : Node))).map fun e => e.2.nid) ++
-      famIds ((mkFams (spinSpecs L) n0).1.getD 0 []) ++ famIds ((mkFams (spinSpecs L) n0).1.getD 1 []) ++
-      famIds ((mkFams (spinSpecs L) n0).1.getD 5 []) ++ famIds ((mkFams (spinSpecs L) n0).1.getD 6 []) ++
-      famIds ((mkFams (spinSpecs L) n0).1.getD 2 []) ++ famIds ((mkFams (spinSpecs L) n0).1.getD 3 []) ++
-      famIds ((mkFams (spinSpecs L) n0).1.getD 4 []) ++ famIds ((mkFams (spinSpecs L) n0).1.getD 7 []) ++
-      famIds ((mkFams (spinSpecs L) n0).1.getD 8 []) ++ famIds ((mkFams (spinSpecs L) n0).1.getD 9 []) := by
-    simp [SpinNodes.nodeList, SpinNodes.init, famIds, hn0]
-  rw [hnl]
-  exact nodeList_perm _ _ _ _ _ _ _ _ _ _ _ _
+  have h := ids_perm_general _ _ (spinSpecs L) _ (identity_ids L) (by omega) rfl
+  refine ⟨(mkFams (spinSpecs L) (idCount L)).2, ?_⟩
+  simp only [SpinNodes.nodeList, SpinNodes.init, List.map_append]
+  exact h
 
 theorem spinNodes_ids_nodup (L : Int) : ((SpinNodes.init L).nodeList.map (·.nid)).Nodup := by
   obtain ⟨N, hp⟩ := spinNodes_ids L
   exact hp.nodup_iff.2 (pyRange_nodup 0 N)
 
+/-! ## the `OpGraph` constructor accepts the node lists -/
+
+section
+variable {κ : Type} [Add κ] [Mul κ] [OfNat κ 0] [OfNat κ 1] [DecidableEq κ]
+
+theorem dHas_append_single {β : Type} (d : List (Int × β)) (k : Int) (v : β) (k' : Int) :
+    dHas (d ++ [(k, v)]) k' = (dHas d k' || k' == k) := by
+  induction d with
+  | nil => simp [dHas, List.lookup]; cases h : (k' == k) <;> simp [h]
+  | cons p d ih =>
+    obtain ⟨k0, v0⟩ := p
+    simp only [dHas, List.cons_append, List.lookup] at ih ⊢
+    cases h : (k' == k0)
+    · simpa using ih
+    · simp
+
+/-- `for node in nodes: self.add_node(node)` succeeds when the ids are pairwise distinct and new -/
+theorem addNodes_ok : ∀ (nodes : List Node) (g : Graph κ), (nodes.map (·.nid)).Nodup →
+    (∀ n ∈ nodes, dHas g.nodes n.nid = false) →
+    nodes.foldlM (fun (g : Graph κ) n => g.addNode n) g = .ok { g with nodes := g.nodes ++ nodes.map fun n => (n.nid, n) } := by
+  intro nodes
+  induction nodes with
+  | nil => intro g _ _; simp [pure, Except.pure]
+  | cons n ns ih =>
+    intro g hnd hnew
+    have h1 : dHas g.nodes n.nid = false := hnew n List.mem_cons_self
+    have hstep : g.addNode n = .ok { g with nodes := g.nodes ++ [(n.nid, n)] } := by
+      simp [Graph.addNode, h1]
+    simp only [List.foldlM_cons, hstep, bind, Except.bind]
+    simp only [List.map_cons, List.nodup_cons] at hnd
+    rw [ih _ hnd.2]
+    · simp
+    · intro m hm
+      simp only [dHas_append_single]
+      rw [hnew m (List.mem_cons_of_mem _ hm)]
+      have : m.nid ≠ n.nid := by
+        intro e
+        exact hnd.1 (e ▸ List.mem_map_of_mem hm)
+      simpa using this
+
+theorem dHas_of_mem_map (nodes : List Node) (n : Node) (h : n ∈ nodes) :
+    dHas (nodes.map fun n => (n.nid, n)) n.nid = true := by
+  induction nodes with
+  | nil => simp at h
+  | cons m ms ih =>
+    simp only [dHas, List.map_cons, List.lookup]
+    cases hk : (n.nid == m.nid)
+    · rcases List.mem_cons.1 h with rfl | h
+      · simp at hk
+      · simpa [dHas] using ih h
+    · simp
+
+/-- `OpGraph(nodes, [], [t0, t1])` with pairwise distinct node ids and terminals among the nodes -/
+theorem graph_mk'_ok (nodes : List Node) (t0 t1 : Node) (hnd : (nodes.map (·.nid)).Nodup) (h0 : t0 ∈ nodes) (h1 : t1 ∈ nodes) :
+    Graph.mk' nodes ([] : List (Edge κ)) [t0.nid, t1.nid]
+      = .ok ⟨nodes.map fun n => (n.nid, n), [], (t0.nid, t1.nid)⟩ := by
+  unfold Graph.mk'
+  dsimp only
+  rw [addNodes_ok nodes _ hnd (by intro n _; rfl)]
+  simp [bind, Except.bind, dHas_of_mem_map nodes t0 h0, dHas_of_mem_map nodes t1 h1, pure, Except.pure]
+
+theorem lookup_of_mem {β : Type} : ∀ (l : List (Int × β)), (l.map (·.1)).Nodup → ∀ (k : Int) (v : β), (k, v) ∈ l →
+    l.lookup k = some v := by
+  intro l
+  induction l with
+  | nil => intro _ k v h; simp at h
+  | cons p l ih =>
+    intro hn k v h
+    obtain ⟨k0, v0⟩ := p
+    simp only [List.map_cons, List.nodup_cons] at hn
+    rcases List.mem_cons.1 h with h' | h'
+    · simp only [Prod.mk.injEq] at h'
+      obtain ⟨rfl, rfl⟩ := h'
+      simp [List.lookup]
+    · have hne : (k == k0) = false := by
+        have : k ≠ k0 := by
+          intro e
+          apply hn.1
+          rw [← e]
+          exact List.mem_map.2 ⟨(k, v), h', rfl⟩
+        simpa using this
+      simp only [List.lookup, hne]
+      exact ih hn.2 k v h'
+
+theorem keys_nodup_map (a b : Int) (f : Int → Node) : (((pyRange a b).map fun i => (i, f i)).map (·.1)).Nodup := by
+  have : ((pyRange a b).map fun i => (i, f i)).map (·.1) = pyRange a b := by
+    rw [List.map_map]
+    exact List.map_id' _
+  rw [this]
+  exact pyRange_nodup a b
+
+/-- the identity chains of both node tables -/
+theorem identity_lookup (L : Int) (hL : 1 ≤ L) :
+    dGet ((pyRange 0 L).map fun i => (i, (⟨i, [], [], 0⟩ : Node))) 0 = .ok ⟨0, [], [], 0⟩ ∧
+    dGet ((pyRange 1 (L + 1)).map fun i => (i, (⟨L + i - 1, [], [], 0⟩ : Node))) L = .ok ⟨L + L - 1, [], [], 0⟩ := by
+  constructor
+  · unfold dGet
+    rw [lookup_of_mem _ (keys_nodup_map 0 L fun i => ⟨i, [], [], 0⟩) 0 ⟨0, [], [], 0⟩
+      (List.mem_map.2 ⟨0, mem_pyRange.2 ⟨Int.le_refl _, by omega⟩, rfl⟩)]
+  · unfold dGet
+    rw [lookup_of_mem _ (keys_nodup_map 1 (L + 1) fun i => ⟨L + i - 1, [], [], 0⟩) L ⟨L + L - 1, [], [], 0⟩
+      (List.mem_map.2 ⟨L, mem_pyRange.2 ⟨hL, by omega⟩, rfl⟩)]
+
+/-- **`MolecularOpGraphNodes.generate_graph`, every `L ≥ 1`: the `OpGraph` constructor accepts the node list** (no
+"node already exists", both terminal ids present). -/
+theorem molNodes_graph_init (L : Int) (hL : 1 ≤ L) :
+    ∃ t0 t1, dGet (MolNodes.init L).identityL 0 = .ok t0 ∧ dGet (MolNodes.init L).identityR L = .ok t1 ∧
+      Graph.mk' (MolNodes.init L).nodeList ([] : List (Edge κ)) [t0.nid, t1.nid]
+        = .ok ⟨(MolNodes.init L).nodeList.map fun n => (n.nid, n), [], (t0.nid, t1.nid)⟩ := by
+  obtain ⟨h0, h1⟩ := identity_lookup L hL
+  refine ⟨_, _, h0, h1, graph_mk'_ok _ _ _ (molNodes_ids_nodup L) ?_ ?_⟩
+  · simp only [MolNodes.nodeList, MolNodes.init, List.mem_append, List.mem_map, mem_pyRange]
+    exact Or.inl (Or.inl (Or.inl (Or.inl (Or.inl (Or.inl (Or.inl (Or.inl (Or.inl (Or.inl (Or.inl
+      ⟨(0, ⟨0, [], [], 0⟩), ⟨0, ⟨Int.le_refl _, by omega⟩, rfl⟩, rfl⟩))))))))))
+  · simp only [MolNodes.nodeList, MolNodes.init, List.mem_append, List.mem_map, mem_pyRange]
+    exact Or.inl (Or.inl (Or.inl (Or.inl (Or.inl (Or.inl (Or.inl (Or.inl (Or.inl (Or.inl (Or.inr
+      ⟨(L, ⟨L + L - 1, [], [], 0⟩), ⟨L, ⟨hL, by omega⟩, rfl⟩, rfl⟩))))))))))
+
+/-- **`SpinMolecularOpGraphNodes.generate_graph`, every `L ≥ 1`** -/
+theorem spinNodes_graph_init (L : Int) (hL : 1 ≤ L) :
+    ∃ t0 t1, dGet (SpinNodes.init L).identityL 0 = .ok t0 ∧ dGet (SpinNodes.init L).identityR L = .ok t1 ∧
+      Graph.mk' (SpinNodes.init L).nodeList ([] : List (Edge κ)) [t0.nid, t1.nid]
+        = .ok ⟨(SpinNodes.init L).nodeList.map fun n => (n.nid, n), [], (t0.nid, t1.nid)⟩ := by
+  obtain ⟨h0, h1⟩ := identity_lookup L hL
+  refine ⟨_, _, h0, h1, graph_mk'_ok _ _ _ (spinNodes_ids_nodup L) ?_ ?_⟩
+  · simp only [SpinNodes.nodeList, SpinNodes.init, List.mem_append, List.mem_map, mem_pyRange]
+    exact Or.inl (Or.inl (Or.inl (Or.inl (Or.inl (Or.inl (Or.inl (Or.inl (Or.inl (Or.inl (Or.inl
+      ⟨(0, ⟨0, [], [], 0⟩), ⟨0, ⟨Int.le_refl _, by omega⟩, rfl⟩, rfl⟩))))))))))
+  · simp only [SpinNodes.nodeList, SpinNodes.init, List.mem_append, List.mem_map, mem_pyRange]
+    exact Or.inl (Or.inl (Or.inl (Or.inl (Or.inl (Or.inl (Or.inl (Or.inl (Or.inl (Or.inl (Or.inr
+      ⟨(L, ⟨L + L - 1, [], [], 0⟩), ⟨L, ⟨hL, by omega⟩, rfl⟩, rfl⟩))))))))))
+
+end
 end Ptn.Ham
